@@ -132,7 +132,203 @@ def op_notis(f, tree):
     return t.done
 
 
+# ---- operators the load-time canonical form does not undo ----------------------------------------------------------
+def _own_nodes(f):
+    """nodes of f's own scope (nested functions / lambdas / classes excluded)"""
+    out = []
+
+    def rec(n):
+        for ch in ast.iter_child_nodes(n):
+            if isinstance(ch, (ast.FunctionDef, ast.AsyncFunctionDef, ast.Lambda, ast.ClassDef)):
+                continue
+            out.append(ch)
+            rec(ch)
+    rec(f)
+    return out
+
+
+def _bodies(f):
+    """(owner, field, list) for every statement list of f's own scope"""
+    out = [(f, 'body', f.body)]
+    for n in _own_nodes(f):
+        for fld in ('body', 'orelse', 'finalbody'):
+            b = getattr(n, fld, None)
+            if isinstance(b, list) and b and isinstance(b[0], ast.stmt):
+                out.append((n, fld, b))
+        if isinstance(n, ast.Try):
+            for h in n.handlers:
+                pass
+    return out
+
+
+def _pick(cands, which):
+    if not cands:
+        return None
+    return cands[0] if which == 'first' else cands[-1]
+
+
+def op_tmpret(f, tree, which='first'):
+    cands = []
+    for owner, fld, body in _bodies(f):
+        for i, st in enumerate(body):
+            if isinstance(st, ast.Return) and st.value is not None and not isinstance(st.value, (ast.Name, ast.Constant)):
+                cands.append((body, i))
+    c = _pick(cands, which)
+    if not c:
+        return False
+    body, i = c
+    st = body[i]
+    body[i:i + 1] = [ast.Assign(targets=[ast.Name(id='result_nv', ctx=ast.Store())], value=st.value, lineno=st.lineno),
+                     ast.Return(value=ast.Name(id='result_nv', ctx=ast.Load()))]
+    return True
+
+
+def op_tmpret_last(f, tree):
+    return op_tmpret(f, tree, 'last')
+
+
+def op_tmpcond(f, tree, which='first'):
+    cands = []
+    for owner, fld, body in _bodies(f):
+        for i, st in enumerate(body):
+            if isinstance(st, ast.If) and isinstance(st.test, (ast.Call, ast.Compare, ast.BoolOp, ast.Attribute, ast.UnaryOp)):
+                # an `elif` is the single statement of its owner's orelse: hoisting there is still evaluation-order preserving
+                cands.append((body, i))
+    c = _pick(cands, which)
+    if not c:
+        return False
+    body, i = c
+    st = body[i]
+    body.insert(i, ast.Assign(targets=[ast.Name(id='cond_nv', ctx=ast.Store())], value=st.test, lineno=st.lineno))
+    st.test = ast.Name(id='cond_nv', ctx=ast.Load())
+    return True
+
+
+def op_tmpcond_last(f, tree):
+    return op_tmpcond(f, tree, 'last')
+
+
+def _pure_operand(e):
+    if isinstance(e, (ast.Name, ast.Constant)):
+        return True
+    if isinstance(e, ast.Attribute):
+        return _pure_operand(e.value)
+    if isinstance(e, ast.Call) and isinstance(e.func, ast.Name) and e.func.id == 'len' and len(e.args) == 1 and not e.keywords:
+        return _pure_operand(e.args[0])
+    return False
+
+
+def op_augexpand(f, tree, which='first'):
+    cands = [n for n in _own_nodes(f) if isinstance(n, ast.AugAssign) and _pure_operand(n.target)]
+    n = _pick(cands, which)
+    if n is None:
+        return False
+    for owner, fld, body in _bodies(f):
+        for i, st in enumerate(body):
+            if st is n:
+                load = copy.deepcopy(n.target)
+                for x in ast.walk(load):
+                    if hasattr(x, 'ctx'):
+                        x.ctx = ast.Load()
+                body[i] = ast.Assign(targets=[n.target], value=ast.BinOp(left=load, op=n.op, right=n.value), lineno=n.lineno)
+                return True
+    return False
+
+
+def op_augexpand_last(f, tree):
+    return op_augexpand(f, tree, 'last')
+
+
+def op_andnest(f, tree, which='first'):
+    cands = [n for n in _own_nodes(f) if isinstance(n, ast.If) and not n.orelse and isinstance(n.test, ast.BoolOp) and isinstance(n.test.op, ast.And)]
+    n = _pick(cands, which)
+    if n is None:
+        return False
+    first, rest = n.test.values[0], n.test.values[1:]
+    inner = ast.If(test=rest[0] if len(rest) == 1 else ast.BoolOp(op=ast.And(), values=rest), body=n.body, orelse=[])
+    n.test = first
+    n.body = [inner]
+    return True
+
+
+def op_andnest_last(f, tree):
+    return op_andnest(f, tree, 'last')
+
+
+def op_earlyret(f, tree):
+    """the function's last statement `if c: A else: B` becomes `if c: A; return` followed by B (generators excluded)"""
+    if any(isinstance(n, (ast.Yield, ast.YieldFrom)) for n in _own_nodes(f)):
+        return False
+    st = f.body[-1]
+    if not (isinstance(st, ast.If) and st.orelse):
+        return False
+    if not isinstance(st.body[-1], (ast.Return, ast.Raise)):
+        st.body.append(ast.Return(value=None))
+    rest = st.orelse
+    st.orelse = []
+    f.body.extend(rest)
+    return True
+
+
+def op_guardnest(f, tree, which='first'):
+    """`if c: ...; return/raise` followed by the rest of the block becomes `if c: ... else: <rest>`"""
+    cands = []
+    for owner, fld, body in _bodies(f):
+        for i, st in enumerate(body[:-1]):
+            if isinstance(st, ast.If) and not st.orelse and isinstance(st.body[-1], (ast.Return, ast.Raise, ast.Continue, ast.Break)):
+                cands.append((body, i))
+    c = _pick(cands, which)
+    if not c:
+        return False
+    body, i = c
+    st = body[i]
+    st.orelse = body[i + 1:]
+    del body[i + 1:]
+    return True
+
+
+def op_guardnest_last(f, tree):
+    return op_guardnest(f, tree, 'last')
+
+
+_FLIP = {ast.Lt: ast.Gt, ast.Gt: ast.Lt, ast.LtE: ast.GtE, ast.GtE: ast.LtE, ast.Eq: ast.Eq, ast.NotEq: ast.NotEq}
+
+
+def op_cmpflip(f, tree, which='first'):
+    cands = [n for n in _own_nodes(f) if isinstance(n, ast.Compare) and len(n.ops) == 1 and type(n.ops[0]) in _FLIP
+             and _pure_operand(n.left) and _pure_operand(n.comparators[0]) and not (isinstance(n.left, ast.Constant) and isinstance(n.comparators[0], ast.Constant))]
+    n = _pick(cands, which)
+    if n is None:
+        return False
+    n.left, n.comparators = n.comparators[0], [n.left]
+    n.ops = [_FLIP[type(n.ops[0])]()]
+    return True
+
+
+def op_cmpflip_last(f, tree):
+    return op_cmpflip(f, tree, 'last')
+
+
+def op_addlocal(f, tree):
+    i = 1 if f.body and isinstance(f.body[0], ast.Expr) and isinstance(f.body[0].value, ast.Constant) and isinstance(f.body[0].value.value, str) else 0
+    f.body.insert(i, ast.Assign(targets=[ast.Name(id='unused_nv', ctx=ast.Store())], value=ast.Constant(value=None), lineno=f.lineno))
+    return True
+
+
+def op_selfalias(f, tree):
+    """`this_nv = self` first, then the first statement-level use of `self.` in a call reads through the alias -- skipped: unrealistic"""
+    return False
+
+
+OPS2 = {'tmpret': op_tmpret, 'tmpret_last': op_tmpret_last, 'tmpcond': op_tmpcond, 'tmpcond_last': op_tmpcond_last,
+        'augexpand': op_augexpand, 'augexpand_last': op_augexpand_last, 'andnest': op_andnest, 'andnest_last': op_andnest_last,
+        'earlyret': op_earlyret, 'guardnest': op_guardnest, 'guardnest_last': op_guardnest_last, 'cmpflip': op_cmpflip,
+        'cmpflip_last': op_cmpflip_last, 'addlocal': op_addlocal}
+
+
 OPS = {'log': op_log, 'logmid': op_logmid, 'rename': op_rename, 'renameall': op_renameall, 'swapif': op_swapif, 'swapif2': op_swapif2, 'swapif3': op_swapif3, 'ternary': op_ternary, 'notis': op_notis}
+OPS.update(OPS2)
+
 
 
 def one(pid, rel, qual, opname, base):
@@ -166,6 +362,13 @@ def one(pid, rel, qual, opname, base):
 
 def main():
     ids = [a for a in sys.argv[1:] if not a.startswith('-')]
+    global SEL
+    SEL = None
+    for a in sys.argv[1:]:
+        if a.startswith('-ops='):
+            SEL = a[5:].split(',')
+            if SEL == ['new']:
+                SEL = list(OPS2)
     if not ids:
         ids = sorted(os.path.basename(p)[:-3].upper() for p in __import__('glob').glob(os.path.join(VERIF, 'sa/props/c*.py')))
     jobs = []
@@ -176,7 +379,7 @@ def main():
         ev = json.load(open(evp))
         for fq in ev['coverage'].get('functions_analysed', []):
             rel, qual = fq.split('::', 1)
-            for opname in OPS:
+            for opname in (SEL or OPS):
                 jobs.append((pid, rel, qual, opname))
     base = tempfile.mkdtemp(prefix='verif_neutral_')
     try:
